@@ -7,13 +7,13 @@
     lan <var> <path> <iface> <host> <port> <level> <cipher> <auth> <target> <lun> <netfn> <rawhex>
     open <var> <path> <iface> <target> <lun> <netfn> <rawhex>
     serial <var> <path> <iface> <port> <baud> <target> <lun> <netfn> <rawhex>
-    ping <var> <path> <iface> <host> <port> <auth>          -> ok <str> | <error tag>      (Model)
+    ping <var> <path> <iface> <host> <port> <level> <cipher> <auth>          -> ok <str> | <error tag>      (Model)
     xlan <path> <iface> <host> <port> <level> <cipher> <auth> <target> <lun> <netfn> <rawhex>
     xopen … / xserial … / xping …  (same operands, no <var>)   -> ok <n> <w>* | none           (Spec argv)
     recv <rc> <str>                               -> ok <hex> | <error tag>                 (Model)
     print <hex> | toline <ch> <nf> <lun> <cmd> | ccline <ch> <nf> <lun> <cmd> <cc> <str>    -> <str> (Spec)
 
-    var    ::= three of 0/1: escape, cipherNotNone, depth1
+    var    ::= four of 0/1: escape, cipherNotNone, depth1, pingOpts
     cipher ::= N | T<str> | F<str>
     auth   ::= N | P<user>/<pass> | O<n>
     target ::= N | A<addr> | R<addr>:<rq>.<rs>.<ch>;…   (R<addr>: = empty routing list)
@@ -32,7 +32,7 @@ def sStr (s : List Nat) : String := natList s
 
 def pVar (s : String) : Option Variant :=
   match s.toList with
-  | [a, b, c] => some ⟨a == '1', b == '1', c == '1'⟩
+  | [a, b, c, d] => some ⟨a == '1', b == '1', c == '1', d == '1'⟩
   | _ => none
 
 def pCipher (s : String) : Option Cipher :=
@@ -116,11 +116,11 @@ def handle (line : String) : String :=
     | some v, some path, some iface, some port, some baud, some target, some lun, some netfn, some raw =>
       showOut (buildSerial v path iface port baud target lun netfn raw)
     | _, _, _, _, _, _, _, _, _ => "bad-op"
-  | ["ping", v, path, iface, host, port, auth] =>
-    match pVar v, pStr path, pStr iface, pStr host, pStr port, pAuth auth with
-    | some v, some path, some iface, some host, some port, some auth =>
-      showOut (buildPing v path iface host port auth)
-    | _, _, _, _, _, _ => "bad-op"
+  | ["ping", v, path, iface, host, port, level, cipher, auth] =>
+    match pVar v, pStr path, pStr iface, pStr host, pStr port, level.toNat?, pCipher cipher, pAuth auth with
+    | some v, some path, some iface, some host, some port, some level, some cipher, some auth =>
+      showOut (buildPing v path iface host port level cipher auth)
+    | _, _, _, _, _, _, _, _ => "bad-op"
   | ["xlan", path, iface, host, port, level, cipher, auth, target, lun, netfn, raw] =>
     match pStr path, pStr iface, pStr host, pStr port, level.toNat?, pCipher cipher, pAuth auth,
           pTarget target, lun.toNat?, netfn.toNat?, ofHex raw with
@@ -140,13 +140,14 @@ def handle (line : String) : String :=
     | some path, some iface, some port, some baud, some target, some lun, some netfn, some raw =>
       showArgv (Spec.Ipmitool.serialArgv path iface port baud (target.toSpec) lun netfn raw)
     | _, _, _, _, _, _, _, _ => "bad-op"
-  | ["xping", path, iface, host, port, auth] =>
-    match pStr path, pStr iface, pStr host, pStr port, pAuth auth with
-    | some path, some iface, some host, some port, some auth =>
+  | ["xping", path, iface, host, port, level, cipher, auth] =>
+    -- the spelled-out form (`-L` always); the other admitted form differs only for the default level
+    match pStr path, pStr iface, pStr host, pStr port, level.toNat?, pCipher cipher, pAuth auth with
+    | some path, some iface, some host, some port, some level, some cipher, some auth =>
       match auth.toSpec with
-      | some cr => showArgv (some (Spec.Ipmitool.pingArgv path iface host port cr))
+      | some cr => showArgv (Spec.Ipmitool.pingArgv true path iface host port level cipher.toSpec cr)
       | none => "none"
-    | _, _, _, _, _ => "bad-op"
+    | _, _, _, _, _, _, _ => "bad-op"
   | ["recv", rc, out] =>
     match rc.toNat?, pStr out with
     | some rc, some out => showBytes (recv out rc)
